@@ -501,7 +501,10 @@ def _rename(v, tid):
     return 't%d.%s' % (tid, v.split('.', 1)[1]) if isinstance(v, str) and v.startswith('t0.') else v
 
 
-def _clone_ops(rng, ops, tid, knobs):
+def _clone_ops(rng, ops, tid, knobs, shift=None):
+    """Renamed copy of caller 0's history.  With `shift` = (param, delta) ONE integer parameter of
+    every object is shifted by tid*delta ("the same workload with richardson_terms / order / n one
+    higher per caller"); otherwise a few random mutations are applied."""
     out = []
     for op in ops:
         c = copy.deepcopy(op)
@@ -515,13 +518,19 @@ def _clone_ops(rng, ops, tid, knobs):
         if c['op'] == 'new':
             if c['fun'].get('inner'):
                 c['fun']['inner'] = _rename(c['fun']['inner'], tid)
-            r = rng.random()
-            if r < 0.3:
-                c['rt'] = rng.choice(knobs['rts'] + [None])
-            elif r < 0.4 and 'order' in c:
-                c['order'] = rng.choice(knobs['orders'])
-            elif r < 0.5 and c['fun']['name'] in funpool.SS:
-                c['fun'] = {'name': rng.choice(knobs['ss'])}
+            if shift is not None:
+                param, delta = shift
+                base = {'rt': c.get('rt') or 2, 'order': c.get('order', 2), 'n': c.get('n', 1)}[param]
+                if not (param == 'n' and c['cls'] in HESS):
+                    c[param] = max(1, base + tid * delta)
+            else:
+                r = rng.random()
+                if r < 0.3:
+                    c['rt'] = rng.choice(knobs['rts'] + [None])
+                elif r < 0.4 and 'order' in c:
+                    c['order'] = rng.choice(knobs['orders'])
+                elif r < 0.5 and c['fun']['name'] in funpool.SS:
+                    c['fun'] = {'name': rng.choice(knobs['ss'])}
         elif c['op'] == 'call' and rng.random() < 0.3:
             x = c['x']
             if x['t'] == 'float':
@@ -548,11 +557,14 @@ def generate(run_seed, mode='seq', ntasks=None):
     one_step_task = rng.randrange(nt) if rng.random() < 0.2 else -1
     tasks = []
     clone = mode != 'seq' and rng.random() < 0.35
+    shift = None
+    if clone and rng.random() < 0.5:
+        shift = (rng.choice(['rt', 'rt', 'order', 'n']), rng.choice([1, 1, 2, -1]))
     for tid in range(nt):
         if clone and tid > 0:
             # "threads doing the same thing": a renamed copy of caller 0's history with small
             # mutations - maximises simultaneous use of the same shared keys and code paths
-            tasks.append({'ops': _clone_ops(rng, tasks[0]['ops'], tid, knobs)})
+            tasks.append({'ops': _clone_ops(rng, tasks[0]['ops'], tid, knobs, shift)})
             continue
         tg = _TaskGen(rng, tid, knobs, allow_one_step=(tid == one_step_task and not clone))
         if mode == 'seq':
@@ -674,6 +686,17 @@ def miniplans(task_ops, idx):
     if norm_ok:
         norm_plan = {'property': 'C09', 'tasks': [{'ops': norm + [judged]}], 'trace': False}
     return replay_plan, norm_plan
+
+
+def _abbrev_plan(plan):
+    """Copy of a plan for the evidence file (long prewarm/flood request lists are cut)."""
+    p = copy.deepcopy(plan)
+    for t in p['tasks']:
+        for o in t['ops']:
+            if o['op'] == 'cache' and len(o.get('reqs', [])) > 3:
+                n = len(o['reqs'])
+                o['reqs'] = o['reqs'][:3] + ['... %d more rule requests' % (n - 3)]
+    return p
 
 
 def is_nontrivial(task_ops, idx, sched_summary, ntasks):
@@ -836,7 +859,7 @@ def judge(plan, result, refs):
             })
     if nontrivial_run:
         stats['shapes'] = {short_hash([plan_shape(plan), result.get('conflict_sig')])}
-        stats['sample_plans'] = [{'plan': plan, 'schedule': sched['segments'][:40]}]
+        stats['sample_plans'] = [{'plan': _abbrev_plan(plan), 'schedule': sched['segments'][:40]}]
     else:
         stats['shapes'] = set()
     stats['conflict_sigs'] = {result.get('conflict_sig')} if ntasks > 1 else set()
